@@ -146,7 +146,8 @@ static void dumpEntity(const EntityDescriptor *ed) {
 static void dumpType(const TypeDescriptor *td) {
     std::cout << "TYPE " << lower(td->Name()) << " raw=" << td->Name() << " ft=" << ftName(td->Type());
     std::string f = aggrFacts(td);
-    if (!f.empty()) std::cout << " aggr=" << f;
+    // a renamed aggregate (TYPE b = a) is an aggregate descriptor of its own that only refers to a: its facts are a's
+    if (!f.empty() && td->Type() != REFERENCE_TYPE) std::cout << " aggr=" << f;
     std::cout << " ref=" << render(td->ReferentType());
     if (td->Type() == sdaiENUMERATION || (td->Type() == REFERENCE_TYPE && td->NonRefType() == sdaiENUMERATION)) {
         const EnumTypeDescriptor *et = dynamic_cast<const EnumTypeDescriptor *>(td);
